@@ -1610,7 +1610,7 @@ pub async fn check_index_coverage(
             };
             Ok((
                 vec![Finding {
-                    signature: format!("query-panics-after-race:{reason}"),
+                    signature: if reason == "other" { "query-panics-after-race:other".to_string() } else { format!("panic:{reason}") },
                     what: format!("a filtered scan of the final version panicked at {loc}: {msg}"),
                     detail: json!({"panic": msg, "location": loc, "ops": ctx}),
                 }],
@@ -1720,14 +1720,10 @@ async fn check_index_coverage_inner(
                 _ => "extra-and-missing-rows",
             };
             findings.push(Finding {
-                signature: format!(
-                    "indexed-answer-differs-on-{}-fragment:{}:{}",
-                    if covered { "covered" } else { "uncovered" },
-                    cause(&frags, col),
-                    if ds.manifest().uses_stable_row_ids() { "stable-row-ids" } else { "row-addresses" }
-                ),
+                signature: format!("indexed-answer-differs:{}", cause(&frags, col)),
                 what: format!(
-                    "{kind}: index {name} on {col} (bitmap {bitmap:?}): `{p}` returns {:?} with the index and {:?} without (fragments {frags:?})",
+                    "{kind} on {} fragment(s): index {name} on {col} (bitmap {bitmap:?}): `{p}` returns {:?} with the index and {:?} without (fragments {frags:?})",
+                    if covered { "covered" } else { "uncovered" },
                     with.keys().collect::<Vec<_>>(),
                     without.keys().collect::<Vec<_>>()
                 ),
@@ -1741,19 +1737,25 @@ async fn check_index_coverage_inner(
 }
 
 
-/// Which committed ops of the history rewrote `col` in place in the given (initial) fragments
-/// (with what happened to the index relative to it), or "fragment-created-after-setup" when the
-/// differing fragment was created after the setup table. Narrows violation signatures so that a
-/// known defect class cannot hide a different one:
-///  * `merge_col` — the column was rewritten in place (partial-schema merge_insert) and no
-///    optimize_indices committed afterwards: the index build itself claimed stale data;
-///  * `merge_col-then-optimize_indices` — an optimize_indices committed after the rewrite;
-///  * `data_replacement-of-indexed-column` — the index existed before the replacement committed;
-///  * `data_replacement` — the index build committed after / concurrently with the replacement.
+/// Root-cause class of an indexed-vs-unindexed difference, from what the harness knows about the
+/// history (one class per root cause; a class that is not a known defect must stay distinguishable):
+///  * `data-replacement-of-indexed-column` — a DataReplacement of the file holding the column committed
+///    while an index on it already existed (known: the replacement never prunes indices);
+///  * `optimize-indices-merged-stale-entries` — an optimize_indices committed after an in-place rewrite of
+///    the column in that fragment, or (stable row ids) after rows were rewritten into a new fragment;
+///  * `deferred-remap-compaction-with-stable-row-ids` — stable row ids and a `defer_index_remap` compaction
+///    committed (indexed reads lose rows after the batch-2 fix; reported to the lead);
+///  * `stable-row-id-resolution` — stable row ids, the differing fragment was created after the setup
+///    and no optimize_indices is involved (index answer resolves to the wrong / stale row);
+///  * `index-build-claims-rewritten-fragment` — the column was rewritten in place and no optimize_indices
+///    committed afterwards: the index build itself claimed data it did not see (DESIGN §6, fixed);
+///  * `index-build-raced-data-replacement` — replacement committed before any index on the column existed;
+///  * `unexplained`.
+/// When several apply the first of this list wins (a known defect explains the difference; the fixed
+/// scenarios with a single writer keep the regression classes observable).
 pub fn history_cause(out: &HistoryOutcome) -> impl Fn(&BTreeSet<u32>, &str) -> String + Sync + '_ {
     move |frags: &BTreeSet<u32>, col: &str| {
         let rpf = out.spec.rows_per_frag as i64;
-        // (commit version, op); setup op k commits version k + 2
         let ok_ops: Vec<(u64, &Op)> = out
             .spec
             .pre_ops
@@ -1771,10 +1773,22 @@ pub fn history_cause(out: &HistoryOutcome) -> impl Fn(&BTreeSet<u32>, &str) -> S
             k.dedup();
             return k.join("+");
         }
-        let mut causes: BTreeSet<String> = BTreeSet::new();
+        let optimize_versions: Vec<u64> = ok_ops.iter().filter(|(_, o)| matches!(o, Op::OptimizeIndices)).map(|x| x.0).collect();
+        let mut causes: BTreeSet<&'static str> = BTreeSet::new();
         for f in frags {
             if (*f as usize) >= out.spec.frags {
-                causes.insert("fragment-created-after-setup".into());
+                let deferred = ok_ops.iter().any(|(_, o)| matches!(o, Op::Compact { defer_remap: true }));
+                causes.insert(if out.spec.stable_row_ids {
+                    if deferred {
+                        "deferred-remap-compaction-with-stable-row-ids"
+                    } else if optimize_versions.is_empty() {
+                        "stable-row-id-resolution"
+                    } else {
+                        "optimize-indices-merged-stale-entries"
+                    }
+                } else {
+                    "unexplained"
+                });
                 continue;
             }
             let lo = *f as i64 * rpf;
@@ -1785,19 +1799,140 @@ pub fn history_cause(out: &HistoryOutcome) -> impl Fn(&BTreeSet<u32>, &str) -> S
                         let index_before = ok_ops
                             .iter()
                             .any(|(vi, oi)| vi < v && matches!(oi, Op::CreateIndex { col: c, .. } if *c == col));
-                        causes.insert(if index_before { "data_replacement-of-indexed-column".into() } else { "data_replacement".into() });
+                        causes.insert(if index_before { "data-replacement-of-indexed-column" } else { "index-build-raced-data-replacement" });
                     }
                     Op::MergeCol { ids, col: c, .. } if *c == col && ids.iter().any(|i| *i >= lo && *i < hi) => {
-                        let optimized_after = ok_ops.iter().any(|(vi, oi)| vi > v && matches!(oi, Op::OptimizeIndices));
-                        causes.insert(if optimized_after { "merge_col-then-optimize_indices".into() } else { "merge_col".into() });
+                        let optimized_after = optimize_versions.iter().any(|vi| vi > v);
+                        causes.insert(if optimized_after { "optimize-indices-merged-stale-entries" } else { "index-build-claims-rewritten-fragment" });
                     }
                     _ => {}
                 }
             }
         }
-        if causes.is_empty() {
-            causes.insert("no-in-place-rewrite-known".into());
+        for c in [
+            "deferred-remap-compaction-with-stable-row-ids",
+            "data-replacement-of-indexed-column",
+            "optimize-indices-merged-stale-entries",
+            "stable-row-id-resolution",
+            "index-build-claims-rewritten-fragment",
+            "index-build-raced-data-replacement",
+        ] {
+            if causes.contains(c) {
+                return c.to_string();
+            }
         }
-        causes.into_iter().collect::<Vec<_>>().join("+")
+        "unexplained".to_string()
     }
+}
+
+// -------------------------------------------------------------------------------------------
+// aftermath: sequential probe operations after the race (amplifies latent structural damage such
+// as duplicated row ids / fragment ids that a plain scan does not show)
+// -------------------------------------------------------------------------------------------
+
+/// After a clean serial check: a fresh handle updates every row (`v = v + 1000`), then compacts;
+/// the table must follow the model through both. Returns findings (signatures prefixed
+/// `aftermath-`) and the number of rows compared.
+pub async fn aftermath(out: &HistoryOutcome, sc: &SerialCheck) -> (Vec<Finding>, u64) {
+    use futures::FutureExt;
+    let mut findings = vec![];
+    let mut rows = 0u64;
+    let Some(mut model) = sc.states.get(&sc.final_version).cloned() else { return (findings, 0) };
+    if model.rows.is_empty() || !model.cols.iter().any(|c| c == "v") {
+        return (findings, 0);
+    }
+    let a0 = Actor::new(out.world.new_actor(0));
+    let ops_hist: Vec<&Op> = out.results.iter().map(|r| &r.op).collect();
+    let steps = [
+        Op::Update { pred: IdPred::Range(0, i64::MAX), add: 1000, set_w: None, retries: None },
+        Op::Compact { defer_remap: false },
+    ];
+    let mut version = sc.final_version;
+    for op in steps.iter() {
+        let r = std::panic::AssertUnwindSafe(async {
+            let ds = a0.open(&out.uri).await?;
+            exec_op(ds, &a0, op).await
+        })
+        .catch_unwind()
+        .await;
+        let kinds = {
+            let mut k: Vec<&str> = out.results.iter().filter(|r| r.result.is_ok()).map(|r| r.op.kind()).collect();
+            k.sort();
+            k.dedup();
+            k.join("+")
+        };
+        match r {
+            Ok(Ok(v)) => {
+                if let Some(v) = v {
+                    version = v;
+                }
+            }
+            Ok(Err(e)) => {
+                findings.push(Finding {
+                    signature: format!("aftermath-{}-fails:{}:{kinds}", op.kind(), err_class(&e)),
+                    what: format!("sequential {} after the race failed: {e}", op.kind()),
+                    detail: json!({"error": e.to_string()}),
+                });
+                return (findings, rows);
+            }
+            Err(p) => {
+                let msg = panic_msg(&p);
+                let loc = THREAD_PANIC_LOCATION.with(|l| l.borrow_mut().take()).unwrap_or_default();
+                let reason = if msg.contains("split of indexed and non-indexed data") {
+                    "frag-reuse-index-group-split".to_string()
+                } else if loc.contains("lance-table/src/rowids.rs") {
+                    "rowid-sequence-mask-to-offsets".to_string()
+                } else {
+                    format!("other:{kinds}")
+                };
+                findings.push(Finding {
+                    signature: if reason.starts_with("other") { format!("aftermath-{}-panics:{reason}", op.kind()) } else { format!("panic:{reason}") },
+                    what: format!("sequential {} after the race panicked at {loc}: {msg}", op.kind()),
+                    detail: json!({"panic": msg, "location": loc}),
+                });
+                return (findings, rows);
+            }
+        }
+        if let Err(e) = model.apply(op, &sc.states) {
+            findings.push(Finding { signature: "harness-aftermath-model".into(), what: e, detail: json!({}) });
+            return (findings, rows);
+        }
+        match observe_version(&a0, &out.uri, version).await {
+            Ok(obs) => {
+                rows += obs.rows.len() as u64;
+                let f = diff_state(&model, &obs, &ops_hist, &format!("aftermath {} (v{version})", op.kind()));
+                if !f.is_empty() {
+                    let deferred = out.results.iter().any(|r| r.result.is_ok() && matches!(r.op, Op::Compact { defer_remap: true }))
+                        || out.spec.pre_ops.iter().any(|o| matches!(o, Op::Compact { defer_remap: true }));
+                    let class = match (out.spec.stable_row_ids, deferred) {
+                        (true, true) => "deferred-remap-compaction-with-stable-row-ids",
+                        (true, false) => "stable-row-ids",
+                        (false, _) => "row-addresses",
+                    };
+                    findings.extend(f.into_iter().map(|mut x| {
+                        x.what = format!("{} [{}]", x.what, x.signature);
+                        x.signature = format!("aftermath-{}-differs-from-model:{class}", op.kind());
+                        x
+                    }));
+                    return (findings, rows);
+                }
+            }
+            Err(e) => {
+                let reason = if e.contains("split of indexed and non-indexed data") {
+                    "frag-reuse-index-group-split"
+                } else if e.contains("non-nullable but contains null") {
+                    "non-nullable-column-missing-in-fragment"
+                } else {
+                    "other"
+                };
+                findings.push(Finding {
+                    signature: format!("aftermath-version-unreadable:{}:{reason}", op.kind()),
+                    what: format!("after sequential {}: {e}", op.kind()),
+                    detail: json!({}),
+                });
+                return (findings, rows);
+            }
+        }
+    }
+    (findings, rows)
 }
